@@ -72,6 +72,15 @@ class ConnDriver:
         self.fired.append(what)
         if what == 'ok':
             self.conn = v
+            # one callable registered twice (two users of a helper share its bound method), cancelled once: one
+            # registration is left and runs once when the connection is lost
+            self.twice_runs = 0
+
+            def twice(c, reason):
+                self.twice_runs += 1
+            v.notifyOnDisconnect(twice)
+            v.notifyOnDisconnect(twice)
+            v.cancelNotifyOnDisconnect(twice)
 
     def closed_done(self):
         return getattr(self, '_after_close', False)
@@ -121,7 +130,8 @@ class ConnDriver:
     def do_AuthOk(self):
         self.proto.dataReceived(b'OK 1234deadbeef\r\n')
         if self.unix:
-            self.proto.dataReceived(b'AGREE_UNIX_FD\r\n')
+            # the server passes descriptors, or it does not (ERROR is its legal answer): the connection comes up either way
+            self.proto.dataReceived(b'AGREE_UNIX_FD\r\n' if (self.attempts() + len(self.cbs)) % 2 else b'ERROR "no descriptors here"\r\n')
         out = self.t.take()
         i = out.index(b'BEGIN\r\n') + 7
         hello = fakes.parse_all(out[i:])
@@ -152,6 +162,8 @@ class ConnDriver:
         self.proto.connectionLost(self.reason)
         self._after_close = True
         self.closed = True
+        if getattr(self, 'twice_runs', 1) != 1:
+            raise AssertionError('a callable registered twice and cancelled once ran %d times at the loss' % self.twice_runs)
 
     def do_CloseCancelling(self, x):
         self.selfcancel = x
